@@ -794,6 +794,24 @@ def skeleton(path: str, textv: str):
     return sk, msgs, problems
 
 
+def hook_raw(job, gctx, jobdir):
+    """observer inside the generating worker: the generated files whose *bytes* differ from what a reader with universal
+    newlines sees (a CR on disk) — decoded without newline translation, the way a compiler reads them"""
+    out = {}
+    root = Path(jobdir) / job.get("out_dir", "out")
+    for f in sorted(root.rglob("*")) if root.exists() else []:
+        if f.is_file() and ("pydjinni" not in f.relative_to(root).parts[1:] or f.suffix == ".java"):
+            raw = f.read_bytes()
+            if b"\r" in raw:
+                out[str(f.relative_to(root))] = raw.decode("utf-8", errors="surrogateescape")
+    return out
+
+
+def on_disk(res) -> dict:
+    """{path: text} of a generation result, byte-exact"""
+    return {**res["files"], **(res.get("extra") or {})}
+
+
 def file_level(ctx, corpus):
     breaks = []
     n = ctx.n(26, 400)
@@ -827,6 +845,8 @@ def file_level(ctx, corpus):
         jobs.append({"files": {"main.djinni": bare}, "root": "main.djinni"})
         jobs.append({"files": {"main.djinni": commented}, "root": "main.djinni", "want": ["dep"]})
         metas.append({"mode": mode, "bare": bare, "commented": commented})
+    for j in jobs:
+        j["hook"] = "props.c12:hook_raw"
     # identical inputs (the comment-free variant of the rotation programs) are generated once
     uniq, index = [], {}
     for j in jobs:
@@ -848,7 +868,7 @@ def file_level(ctx, corpus):
             report(ctx, "program:generation-fails:" + r1["stage"] + ":" + r1["cls"],
                        "adding comments makes generation fail", {"input": inp, "impl": r1})
             continue
-        f0, f1 = r0["files"], r1["files"]
+        f0, f1 = on_disk(r0), on_disk(r1)
         if set(f0) != set(f1):
             ctx.report("program:file-set", "adding comments changes the set of generated files",
                        {"input": inp, "only_bare": sorted(set(f0) - set(f1)), "only_commented": sorted(set(f1) - set(f0))})
